@@ -2,6 +2,8 @@ package main
 
 import (
 	"fmt"
+	"go/parser"
+	"go/token"
 	"go/types"
 	"sort"
 	"strings"
@@ -81,11 +83,11 @@ func (v *Verifier) havocAll(st *State, why string) {
 		h.Base = v.Y.fresh(v.D, "hall_"+why, h.arraySort())
 		h.Writes = nil
 		if v.col != nil {
-			v.col.allKeys[k] = true
+			st.colW = append(st.colW, wrec{key: "ALLKEY:" + k})
 		}
 	}
 	if v.col != nil {
-		v.col.allKeys["*"] = true
+		st.colW = append(st.colW, wrec{key: "ALLKEY:" + "*"})
 	}
 	for g := range st.ghost {
 		st.ghost[g] = v.Y.fresh(v.D, "gall", st.ghost[g].Sort)
@@ -524,12 +526,12 @@ func (v *Verifier) ghostUpdate(st *State, env *Env, gu *GhostUpdate, what string
 	case "ghostvar":
 		st.ghost[l.gname] = val.T
 		if v.col != nil {
-			v.col.ghosts[l.gname] = true
+			st.colW = append(st.colW, wrec{key: "GHOST:" + l.gname})
 		}
 	case "exact":
 		h := st.heap[l.key]
 		h.write(l.addr, val.T)
-		v.recordWrite(l.key, l.addr)
+		v.recordWrite(st, l.key, l.addr)
 	}
 }
 
@@ -566,7 +568,7 @@ func (v *Verifier) havocLoc(st *State, l modLoc, in ssa.Instruction) {
 		s := v.C.GhostVars[l.gname]
 		st.ghost[l.gname] = v.Y.fresh(v.D, "g_"+l.gname, s)
 		if v.col != nil {
-			v.col.ghosts[l.gname] = true
+			st.colW = append(st.colW, wrec{key: "GHOST:" + l.gname})
 		}
 	case "exact":
 		h := st.heap[l.key]
@@ -587,7 +589,23 @@ func (v *Verifier) havocLoc(st *State, l modLoc, in ssa.Instruction) {
 			f = tIte(l.guard, f, h.read(l.addr))
 		}
 		h.write(l.addr, f)
-		v.recordWrite(l.key, l.addr)
+		v.recordWrite(st, l.key, l.addr)
+	case "anyfield":
+		h := st.heap[l.key]
+		if h == nil {
+			h = v.heapFor(st, l.sort)
+		}
+		oldArr := h.arrayTerm()
+		nb := v.Y.fresh(v.D, "hfld", h.arraySort())
+		p := mk("Ptr", "zz_qp")
+		sel := mk(h.ElSort, "select", nb, p)
+		in := tAnd(mk("Bool", "(_ is zz_fld)", p), tEq(mk("Int", "zz_fld_idx", p), l.addr))
+		st.assume(mk("Bool", "forall ((zz_qp Ptr))", withPattern(tImp(tNot(in), tEq(sel, mk(h.ElSort, "select", oldArr, p))), sel)))
+		h.Base = nb
+		h.Writes = nil
+		if v.col != nil {
+			st.colW = append(st.colW, wrec{l.key, mk("Ptr", "zz_fld", v.Y.fresh(v.D, "anyobj", "Ptr"), l.addr)})
+		}
 	case "under":
 		for _, k := range sortedKeys(st.heap) {
 			h := st.heap[k]
@@ -602,7 +620,7 @@ func (v *Verifier) havocLoc(st *State, l modLoc, in ssa.Instruction) {
 			h.Base = nb
 			h.Writes = nil
 			if v.col != nil {
-				v.col.allKeys[k] = true
+				st.colW = append(st.colW, wrec{key: "ALLKEY:" + k})
 			}
 		}
 		st.underHavoc = append(st.underHavoc, l.base)
@@ -619,7 +637,7 @@ func (v *Verifier) havocLoc(st *State, l modLoc, in ssa.Instruction) {
 		h.Base = nb
 		h.Writes = nil
 		if v.col != nil {
-			v.col.allKeys[l.key] = true
+			st.colW = append(st.colW, wrec{l.key, pElem(v.Y.fresh(v.D, "anybase", "Ptr"), v.Y.fresh(v.D, "anyidx", "Int"))})
 		}
 	case "elems":
 		h := st.heap[l.key]
@@ -629,7 +647,7 @@ func (v *Verifier) havocLoc(st *State, l modLoc, in ssa.Instruction) {
 		v.frameCheckLoc(st, l.key, pElem(l.base, intLit(0)), in)
 		v.havocRegion(st, h, l.base)
 		if v.col != nil {
-			v.col.writes = append(v.col.writes, wrec{l.key, pElem(l.base, v.Y.fresh(v.D, "anyidx", "Int"))})
+			st.colW = append(st.colW, wrec{l.key, pElem(l.base, v.Y.fresh(v.D, "anyidx", "Int"))})
 		}
 	case "key":
 		h := st.heap[l.key]
@@ -644,7 +662,7 @@ func (v *Verifier) havocLoc(st *State, l modLoc, in ssa.Instruction) {
 		h.Base = v.Y.fresh(v.D, "hk", h.arraySort())
 		h.Writes = nil
 		if v.col != nil {
-			v.col.allKeys[l.key] = true
+			st.colW = append(st.colW, wrec{key: "ALLKEY:" + l.key})
 		}
 	}
 }
@@ -723,6 +741,13 @@ func (v *Verifier) frameCheckLoc(st *State, key string, addr *Term, in ssa.Instr
 		case "key":
 			if m.key == key {
 				return
+			}
+		case "anyfield":
+			if m.key == key {
+				if addr.Op == "zz_fld" && termEq(addr.Args[1], m.addr) {
+					return
+				}
+				alts = append(alts, tAnd(mk("Bool", "(_ is zz_fld)", addr), tEq(mk("Int", "zz_fld_idx", addr), m.addr)))
 			}
 		case "under":
 			alts = append(alts, mk("Bool", "zz_under", addr, m.base))
@@ -901,7 +926,7 @@ func (v *Verifier) builtin(st *State, tg *callTarget, bind ssa.Value, in ssa.Ins
 			st.assume(mk("Bool", "forall ((zz_qi Int))", tImp(tOr(tCmp("<", i, slOff(dst)), tCmp(">=", i, tAdd(slOff(dst), n))),
 				tEq(mk("Int", "select", hI.Base, pElem(slBase(dst), i)), mk("Int", "select", oldArr, pElem(slBase(dst), i))))))
 			if v.col != nil {
-				v.col.writes = append(v.col.writes, wrec{hI.Key, pElem(slBase(dst), v.Y.fresh(v.D, "anyidx", "Int"))})
+				st.colW = append(st.colW, wrec{hI.Key, pElem(slBase(dst), v.Y.fresh(v.D, "anyidx", "Int"))})
 			}
 		} else {
 			n = tIte(tCmp("<", slLen(dst), slLen(src)), slLen(dst), slLen(src))
@@ -921,7 +946,7 @@ func (v *Verifier) builtin(st *State, tg *callTarget, bind ssa.Value, in ssa.Ins
 		dom, vals := v.mapHeaps(st, mt)
 		v.frameCheckKey(st, dom.Key, m, in)
 		dom.write(m, mk(dom.ElSort, "store", dom.read(m), k, tFalse))
-		v.recordWrite(dom.Key, m)
+		v.recordWrite(st, dom.Key, m)
 		_ = vals
 	case "print", "println":
 	case "recover":
@@ -988,7 +1013,7 @@ func (v *Verifier) appendBuiltin(st *State, tg *callTarget, bind ssa.Value, in s
 				stA.assume(mk("Bool", "forall ((zz_qi Int))", tImp(tAnd(tCmp("<=", intLit(0), i), tCmp("<", i, n)),
 					tEq(mk(h.ElSort, "select", h.Base, rel(slBase(s), tAdd(lo, i))), mk(h.ElSort, "select", oldArr, rel(slBase(xs), tAdd(slOff(xs), i)))))))
 				if v.col != nil {
-					v.col.writes = append(v.col.writes, wrec{h.Key, pElem(slBase(s), v.Y.fresh(v.D, "anyidx", "Int"))})
+					st.colW = append(st.colW, wrec{h.Key, pElem(slBase(s), v.Y.fresh(v.D, "anyidx", "Int"))})
 				}
 			}
 		}
@@ -1128,6 +1153,8 @@ func (v *Verifier) loopContract(f *Frame, h *ssa.BasicBlock) *LoopContract {
 }
 
 type writeSet struct {
+	anyelems map[string]bool
+	fields  map[string][]*Term // key -> field ids (any object)
 	exact   map[string][]wrec // key -> addresses
 	regions map[string][]*Term
 	allKeys map[string]bool
@@ -1135,15 +1162,18 @@ type writeSet struct {
 }
 
 func newWriteSet() *writeSet {
-	return &writeSet{exact: map[string][]wrec{}, regions: map[string][]*Term{}, allKeys: map[string]bool{}, ghosts: map[string]bool{}}
+	return &writeSet{anyelems: map[string]bool{}, fields: map[string][]*Term{}, exact: map[string][]wrec{}, regions: map[string][]*Term{}, allKeys: map[string]bool{}, ghosts: map[string]bool{}}
 }
 
 func (w *writeSet) size() int {
-	n := len(w.allKeys) + len(w.ghosts)
+	n := len(w.allKeys) + len(w.ghosts) + len(w.anyelems)
 	for _, x := range w.exact {
 		n += len(x)
 	}
 	for _, x := range w.regions {
+		n += len(x)
+	}
+	for _, x := range w.fields {
 		n += len(x)
 	}
 	return n
@@ -1156,6 +1186,15 @@ func (w *writeSet) addExact(key string, addr *Term) {
 		}
 	}
 	w.exact[key] = append(w.exact[key], wrec{key, addr})
+}
+
+func (w *writeSet) addField(key string, id *Term) {
+	for _, b := range w.fields[key] {
+		if termEq(b, id) {
+			return
+		}
+	}
+	w.fields[key] = append(w.fields[key], id)
 }
 
 func (w *writeSet) addRegion(key string, base *Term) {
@@ -1187,6 +1226,22 @@ func (v *Verifier) applyWriteSet(st *State, w *writeSet) {
 			v.havocRegion(st, h, b)
 		}
 	}
+	for _, k := range sortedKeys(w.anyelems) {
+		h := st.heap[k]
+		if h == nil || w.allKeys[k] {
+			continue
+		}
+		v.havocLoc(st, modLoc{kind: "anyelems", key: k, sort: h.ElSort}, nil)
+	}
+	for _, k := range sortedKeys(w.fields) {
+		h := st.heap[k]
+		if h == nil || w.allKeys[k] {
+			continue
+		}
+		for _, id := range w.fields[k] {
+			v.havocLoc(st, modLoc{kind: "anyfield", key: k, sort: h.ElSort, addr: id}, nil)
+		}
+	}
 	for _, k := range sortedKeys(w.exact) {
 		h := st.heap[k]
 		if h == nil || w.allKeys[k] {
@@ -1212,8 +1267,18 @@ func (v *Verifier) havocLoopLocals(st *State, h *ssa.BasicBlock, blocks map[*ssa
 			t := v.Y.fresh(v.D, "phi_"+phi.Comment, v.sortOf(phi.Type()))
 			v.addTypeFacts(st, t, phi.Type())
 			if phi.Comment == "rangeindex" {
-				// built-in invariant of go/ssa's range-over-slice lowering: the index starts at -1 and only increments
+				// built-in invariant of go/ssa's range-over-slice lowering: the index starts at -1, only increments,
+				// and the loop is left as soon as index+1 reaches the bound
 				st.assume(tCmp(">=", t, intLit(-1)))
+				if ifi, ok := h.Instrs[len(h.Instrs)-1].(*ssa.If); ok {
+					if cmp, ok := ifi.Cond.(*ssa.BinOp); ok && cmp.Op == token.LSS {
+						if inc, ok := cmp.X.(*ssa.BinOp); ok && inc.X == phi && cmp.Y.Parent() != nil {
+							if bnd, ok := f.vals[cmp.Y]; ok {
+								st.assume(tImp(tCmp(">=", bnd, intLit(0)), tCmp("<=", tAdd(t, intLit(1)), bnd)))
+							}
+						}
+					}
+				}
 			}
 			f.vals[phi] = t
 		}
@@ -1290,6 +1355,17 @@ func (v *Verifier) loopArrive(st *State, from, h *ssa.BasicBlock) {
 		// back edge
 		v.evalPhis(st, h, from)
 		if v.col != nil && v.col.header == h && v.col.depth == len(st.frames) {
+			// only writes on paths that come back to the loop head matter for the state at the head
+			for _, w := range st.colW {
+				switch {
+				case strings.HasPrefix(w.key, "ALLKEY:"):
+					v.col.allKeys[strings.TrimPrefix(w.key, "ALLKEY:")] = true
+				case strings.HasPrefix(w.key, "GHOST:"):
+					v.col.ghosts[strings.TrimPrefix(w.key, "GHOST:")] = true
+				default:
+					v.col.writes = append(v.col.writes, w)
+				}
+			}
 			v.endPath()
 			return
 		}
@@ -1330,6 +1406,7 @@ func (v *Verifier) loopArrive(st *State, from, h *ssa.BasicBlock) {
 		savedCol, savedPath, savedErrs := v.col, v.pathN, len(v.errs)
 		for iter := 0; iter < 6; iter++ {
 			st2 := st.clone()
+			st2.colW = nil
 			mark := v.Y.n
 			newMark := v.newCtr
 			v.applyWriteSet(st2, W)
@@ -1359,12 +1436,22 @@ func (v *Verifier) loopArrive(st *State, from, h *ssa.BasicBlock) {
 					W.addExact(wr.key, wr.addr)
 					continue
 				}
+				if wr.addr.Op == "zz_fld" {
+					if _, lit := isIntLit(wr.addr.Args[1]); lit && wr.addr.Args[0].Op != "zz_fld" && wr.addr.Args[0].Op != "zz_elem" {
+						W.addField(wr.key, wr.addr.Args[1])
+						continue
+					}
+				}
 				q := wr.addr
 				for q.Op == "zz_fld" {
 					q = q.Args[0]
 				}
 				if q.Op == "zz_elem" && !mentionsAfter(q.Args[0], mark, newMark) {
 					W.addRegion(wr.key, q.Args[0])
+					continue
+				}
+				if wr.addr.Op == "zz_elem" {
+					W.anyelems[wr.key] = true
 					continue
 				}
 				W.allKeys[wr.key] = true
@@ -1379,17 +1466,25 @@ func (v *Verifier) loopArrive(st *State, from, h *ssa.BasicBlock) {
 		// outer collector (nested loops) must see the inner loop's writes
 		if savedCol != nil {
 			for k := range W.allKeys {
-				savedCol.allKeys[k] = true
+				st.colW = append(st.colW, wrec{key: "ALLKEY:" + k})
 			}
 			for g := range W.ghosts {
-				savedCol.ghosts[g] = true
+				st.colW = append(st.colW, wrec{key: "GHOST:" + g})
 			}
 			for _, k := range sortedKeys(W.exact) {
-				savedCol.writes = append(savedCol.writes, W.exact[k]...)
+				st.colW = append(st.colW, W.exact[k]...)
 			}
 			for _, k := range sortedKeys(W.regions) {
 				for _, b := range W.regions[k] {
-					savedCol.writes = append(savedCol.writes, wrec{k, pElem(b, v.Y.fresh(v.D, "anyidx", "Int"))})
+					st.colW = append(st.colW, wrec{k, pElem(b, v.Y.fresh(v.D, "anyidx", "Int"))})
+				}
+			}
+			for _, k := range sortedKeys(W.anyelems) {
+				st.colW = append(st.colW, wrec{k, pElem(v.Y.fresh(v.D, "anybase", "Ptr"), v.Y.fresh(v.D, "anyidx", "Int"))})
+			}
+			for _, k := range sortedKeys(W.fields) {
+				for _, id := range W.fields[k] {
+					st.colW = append(st.colW, wrec{k, mk("Ptr", "zz_fld", v.Y.fresh(v.D, "anyobj", "Ptr"), id)})
 				}
 			}
 		}
@@ -1460,6 +1555,17 @@ func (v *Verifier) finishPath(st *State, rs []*Term) {
 		}
 		v.emit(st, "post", en.Label, en.Tags, g, en.Src, "")
 	}
+	for _, d := range con.Defines {
+		if len(rs) == 0 {
+			continue
+		}
+		g, err := env.neutral().eval(d.Body)
+		if err != nil {
+			v.errorf("define %s: %v", d.Name, err)
+			continue
+		}
+		v.emit(st, "post", "define_"+d.Name, []string{"ALL"}, tEq(rs[0], g.T), "result == "+d.Src+" (justifies the meaning of "+d.Name+" on this function value)", "")
+	}
 	if con.FreshResult && len(rs) > 0 {
 		g := tTrue
 		if rootOf(rs[0]).Op != "zz_new" {
@@ -1490,6 +1596,16 @@ func (v *Verifier) verifyFunc(fn *ssa.Function, con *Contract, name string) {
 	}
 	for _, n := range sortedKeys(v.C.SpecFuns) {
 		sf := v.C.SpecFuns[n]
+		if sf.SrcArgs == nil {
+			sf.SrcArgs = append([]string{}, sf.Args...)
+			sf.SrcRet = sf.Ret
+		}
+		var args []string
+		for _, a := range sf.SrcArgs {
+			args = append(args, v.specSort(a, sf.Pkg))
+		}
+		sf.Args = args
+		sf.Ret = v.specSort(sf.SrcRet, sf.Pkg)
 		v.D.declFun("zz_"+sf.Name, sf.Args, sf.Ret)
 	}
 	for _, raw := range v.C.RawSMT {
@@ -1658,6 +1774,31 @@ func (v *Verifier) verifyFunc(fn *ssa.Function, con *Contract, name string) {
 	if v.returns == 0 {
 		v.errorf("no path reaches a return")
 	}
+}
+
+// specSort resolves a sort name used in a specfun signature: an SMT/spec sort name, or a Go type expression.
+func (v *Verifier) specSort(name, pkg string) string {
+	if isSpecSort(name) || strings.HasPrefix(name, "(") || v.D.seen["sort:"+name] {
+		return name
+	}
+	for _, raw := range v.C.RawSMT {
+		if strings.HasPrefix(raw, "(declare-sort "+name+" ") {
+			return name
+		}
+	}
+	if strings.HasPrefix(name, "S_") || strings.HasPrefix(name, "TP_") {
+		return name
+	}
+	x, err := parser.ParseExpr(name)
+	if err != nil {
+		return name
+	}
+	env := &Env{v: v, st: &State{heap: map[string]*HeapArr{}, ghost: map[string]*Term{}}, vars: map[string]Val{}, pkg: v.typesPkg(pkg)}
+	ty, err := env.resolveType(x)
+	if err != nil {
+		return name
+	}
+	return v.D.sortOf(ty)
 }
 
 func isCapturedCell(fn *ssa.Function, fv *ssa.FreeVar) bool {
